@@ -64,6 +64,12 @@ struct Net {
 	queues: HashMap<(usize, usize), VecDeque<Wire>>,
 	/// messages from and to a silent node are dropped
 	silent: Vec<bool>,
+	/// a held node's outgoing messages stay in the queue until it is released
+	held: Vec<bool>,
+	/// the payment under observation (a warm-up payment may be in flight too)
+	test_hash: [u8; 32],
+	up_id: Option<u64>,
+	dn_id: Option<u64>,
 	/// a frozen node is not given new blocks
 	frozen: Vec<bool>,
 	tip: Vec<u32>,
@@ -116,20 +122,28 @@ impl Net {
 	fn enqueue(&mut self, from: usize, to_pk: &bitcoin::secp256k1::PublicKey, w: Wire) {
 		let to = self.idx_of(to_pk);
 		// what B itself puts on the wire is an observation, whether or not the peer listens
+		if from == 0 {
+			if let Wire::Add(m) = &w {
+				if m.payment_hash.0 == self.test_hash { self.up_id = Some(m.htlc_id); }
+			}
+		}
 		if from == 1 {
-			let (kind, chan) = match &w {
-				Wire::Fulfill(m) => ("fulfill", self.chan_name(&m.channel_id)),
-				Wire::Fail(m) => ("fail", self.chan_name(&m.channel_id)),
-				Wire::Malformed(m) => ("fail", self.chan_name(&m.channel_id)),
-				Wire::Add(m) => ("add", self.chan_name(&m.channel_id)),
-				_ => ("", ""),
+			let (kind, chan, id) = match &w {
+				Wire::Fulfill(m) => ("fulfill", self.chan_name(&m.channel_id), m.htlc_id),
+				Wire::Fail(m) => ("fail", self.chan_name(&m.channel_id), m.htlc_id),
+				Wire::Malformed(m) => ("fail", self.chan_name(&m.channel_id), m.htlc_id),
+				Wire::Add(m) => ("add", self.chan_name(&m.channel_id), m.htlc_id),
+				_ => ("", "", 0),
 			};
 			if kind == "add" {
 				if let Wire::Add(m) = &w {
-					let h = self.height;
-					self.ev(json!({"ev":"forward","h":h,"ed":m.cltv_expiry}));
+					if m.payment_hash.0 == self.test_hash {
+						self.dn_id = Some(m.htlc_id);
+						let h = self.height;
+						self.ev(json!({"ev":"forward","h":h,"ed":m.cltv_expiry}));
+					}
 				}
-			} else if !kind.is_empty() && chan == "up" {
+			} else if !kind.is_empty() && chan == "up" && Some(id) == self.up_id {
 				let h = self.height;
 				let r = std::mem::take(&mut self.last_reason);
 				self.ev(json!({"ev":"resolve","dir":"up","kind":kind,"h":h,"reason":r}));
@@ -231,11 +245,11 @@ impl Net {
 			Event::PaymentClaimed { .. } => {
 				if i == 2 { self.c_claimed_event = true; }
 			},
-			Event::PaymentSent { .. } => {
-				if i == 0 { self.a_sent = true; }
+			Event::PaymentSent { payment_hash, .. } => {
+				if i == 0 && payment_hash.0 == self.test_hash { self.a_sent = true; }
 			},
-			Event::PaymentFailed { .. } => {
-				if i == 0 { self.a_failed = true; }
+			Event::PaymentFailed { payment_hash, .. } => {
+				if i == 0 && payment_hash.map(|p| p.0) == Some(self.test_hash) { self.a_failed = true; }
 			},
 			Event::HTLCHandlingFailed { failure_reason, .. } => {
 				if i == 1 {
@@ -269,7 +283,13 @@ impl Net {
 			None => return false,
 		};
 		let from_pk = self.nodes[from].node.get_our_node_id();
-		if to == 1 && from == 2 {
+		let dn_match = match &w {
+			Wire::Fulfill(m) => Some(m.htlc_id) == self.dn_id,
+			Wire::Fail(m) => Some(m.htlc_id) == self.dn_id,
+			Wire::Malformed(m) => Some(m.htlc_id) == self.dn_id,
+			_ => false,
+		};
+		if to == 1 && from == 2 && dn_match {
 			let h = self.height;
 			match &w {
 				Wire::Fulfill(_) => {
@@ -308,7 +328,7 @@ impl Net {
 			let mut any = false;
 			for f in 0..n {
 				for t in 0..n {
-					if f != t {
+					if f != t && !self.held[f] {
 						while self.deliver_one(f, t) {
 							any = true;
 							guard += 1;
@@ -451,7 +471,7 @@ fn build(n: usize, d: u16) -> Net {
 		nd.tx_broadcaster.txn_types.lock().unwrap().clear();
 	}
 	Net {
-		nodes, queues: HashMap::new(), silent: vec![false; n], frozen: vec![false; n], tip: vec![top; n], height: top,
+		nodes, queues: HashMap::new(), silent: vec![false; n], held: vec![false; n], test_hash: [0u8; 32], up_id: None, dn_id: None, frozen: vec![false; n], tip: vec![top; n], height: top,
 		history: Vec::new(), mempool: Vec::new(), spent: HashSet::new(), confirmed: HashSet::new(), conf_height: HashMap::new(), commit_txids: HashSet::new(),
 		log: Vec::new(), chan_ids, fundings, scids, c1: 1, c2: 1, a_sent: false, a_failed: false, c_claimed_event: false,
 		c_paid_onchain: false, dn_fulfilled: false, last_reason: String::new(), adversary: None, preimage: [0u8; 32],
@@ -491,6 +511,32 @@ fn run_case(run: u64, s: &Value, net_out: &mut Option<Net>) {
 	let preimage = PaymentPreimage(pre);
 	net.preimage = pre;
 	let hash = PaymentHash(bitcoin::hashes::sha256::Hash::hash(&pre).to_byte_array());
+	net.test_hash = hash.0;
+	if dn == "cell" && role == "fwd" {
+		// a warm-up payment with far-away expiries whose update_add_htlc + commitment_signed C takes but
+		// does not answer: B now owes nothing and is owed a revoke_and_ack, so its next forward to C
+		// has to wait in the holding cell
+		let mut pre0 = pre;
+		pre0[31] = 0x5b;
+		let hash0 = PaymentHash(bitcoin::hashes::sha256::Hash::hash(&pre0).to_byte_array());
+		let secret0 = net.nodes[2].node.create_inbound_payment_for_hash(hash0, Some(amt), 7200, None, None).unwrap().0;
+		let mk = |i: usize, scid: u64, fee: u64, delta: u32, net: &Net| RouteHop {
+			pubkey: net.nodes[i].node.get_our_node_id(),
+			node_features: NodeFeatures::from_le_bytes(net.nodes[i].node.node_features().le_flags().to_vec()),
+			short_channel_id: scid, channel_features: ChannelFeatures::empty(),
+			fee_msat: fee, cltv_expiry_delta: delta, maybe_announced_channel: true,
+		};
+		let hops0 = vec![mk(1, net.scids[0], 1000, 200, net), mk(2, net.scids[1], amt, 400, net)];
+		let rp0 = RouteParameters::from_payment_params_and_value(
+			PaymentParameters::from_node_id(net.nodes[2].node.get_our_node_id(), 400).with_max_total_cltv_expiry_delta(100_000), amt);
+		let route0 = Route { paths: vec![Path { hops: hops0, blinded_tail: None }], route_params: rp0 };
+		if net.nodes[0].node.send_payment_with_route(route0, hash0, RecipientOnionFields::secret_only(secret0, amt), PaymentId(hash0.0)).is_err() {
+			net.ev(json!({"ev":"skip","why":"warm-up send refused"}));
+			return;
+		}
+		net.held[2] = true;
+		net.pump(&[0, 1]);
+	}
 	let secret = net.nodes[dst].node.create_inbound_payment_for_hash(hash, Some(amt), 7200, None, None).unwrap().0;
 	let mut hops = Vec::new();
 	let final_delta: u32;
@@ -575,6 +621,25 @@ fn run_case(run: u64, s: &Value, net_out: &mut Option<Net>) {
 			}
 		} else {
 			net.pump(&[0, 1]);
+		}
+	} else if dn == "cell" {
+		let rejected = net.log.iter().any(|e| e["ev"] == "resolve" && e["dir"] == "up");
+		if !rejected && !forwarded {
+			// the forward waits in B's holding cell; C answers when B's height is ed + x
+			let release_at = ed_asked as i64 + x;
+			while (net.height as i64) < release_at {
+				net.block(&[0, 1, 2]);
+			}
+			net.held[2] = false;
+			net.pump(&[0, 1, 2]);
+			let has_test = net.nodes[2].node.list_channels().iter().any(|cd| cd.pending_inbound_htlcs.iter().any(|hh| hh.payment_hash.0 == hash.0));
+			if has_test {
+				net.nodes[2].node.claim_funds(preimage);
+				net.pump(&[0, 1, 2]);
+			}
+		} else {
+			net.held[2] = false;
+			net.pump(&[0, 1, 2]);
 		}
 	} else {
 		if forwarded {
